@@ -200,7 +200,7 @@ def l2_case(draw, ser):
     core = draw(st.integers(0, 2)) != 0
     v = draw(V.core_values(10) if core else ext_values(ser))
     return {"layer": 2, "ser": ser, "v": v, "kw": draw(kwnames), "pad": draw(st.sampled_from([0, 0, 40, 90, 101, 300])),
-            "compress": draw(st.booleans())}
+            "compress": draw(st.booleans()), "ann": draw(st.sampled_from([0, 0, 1, 2, 3]))}
 
 
 # ------------------------------------------------------------------------------------------------
@@ -344,12 +344,17 @@ def run_l2(case):
     p = L["proxies"].get(name)
     if p is None:
         p = L["proxies"][name] = live.proxy(L["served"].uri("echo"), serializer=name)
+        p._pyroSeq = 0xffd0 + 7 * len(L["proxies"])      # the 16-bit sequence number wraps within every shard
     L["counter"][0] += 1
     token = L["counter"][0]
     ORIGINALS[token] = v
     pad = "p" * case.get("pad", 0)
     oldc = config.COMPRESSION
     config.COMPRESSION = bool(case.get("compress"))
+    # annotation chunks on the carrying messages (request: client context; reply: daemon.annotations()) must not matter
+    ann = case.get("ann", 0)
+    api.current_context.annotations = {"VCLI": b"client annotation \x00\xff" * (1 + token % 3)} if ann & 1 else {}
+    L["served"].daemon.v_annotations = (lambda: {"VSRV": b"server annotation", "VSR2": b""}) if ann & 2 else None
     try:
         try:
             res = p.echo(token, v, [v, pad], **{kw: v})
@@ -400,6 +405,8 @@ def run_l2(case):
                 viol(sig, "%s arrives as %r, documented mapping gives %r" % (label, got, exp))
     finally:
         config.COMPRESSION = oldc
+        api.current_context.annotations = {}
+        L["served"].daemon.v_annotations = None
         ORIGINALS.pop(token, None)
         RECEIVED.pop(token, None)
     return out
@@ -502,6 +509,8 @@ def _labels(case):
     l = ["L%d" % case["layer"], "ser:" + case["ser"], "core" if V.is_core(v) else "ext"]
     if case["layer"] == 2 and case.get("compress"):
         l.append("compressed")
+    if case["layer"] == 2 and case.get("ann"):
+        l.append("annotations:" + {1: "request", 2: "reply", 3: "both"}[case["ann"]])
     for x in V.leaves(v):
         if type(x) is int and not -2**63 <= x < 2**64:
             l.append("bigint")
